@@ -25,12 +25,15 @@ RULE = ('histories as in C01, each executed on the real eos with the EOS_VERIF h
 CLASSES = ['Calculation', 'ReactiveArmor', 'Stat', 'Restriction']
 
 
-def run_configs(histories, configs, hashseed, penalty_base=0.5):
+def run_configs(histories, configs, hashseed, penalty_base=0.5, rah_histories=None):
     env = dict(os.environ)
     env.update({'EOS_VERIF': '1', 'PYTHONHASHSEED': str(hashseed), 'PYTHONPATH': common.REPO,
                 'PYTHONDONTWRITEBYTECODE': '1'})
     p = subprocess.run([common.PY, os.path.join(common.VERIF, 'harness', 'c08_impl.py')],
-                       input=json.dumps({'histories': histories, 'configs': configs, 'penalty_base': penalty_base}),
+                       input=json.dumps(dict({'histories': histories, 'configs': configs,
+                                              'penalty_base': penalty_base},
+                                             **({'rah_histories': rah_histories} if rah_histories is not None
+                                                else {}))),
                        stdout=subprocess.PIPE, stderr=subprocess.PIPE, text=True, env=env, timeout=3000)
     if p.returncode != 0:
         raise RuntimeError('c08 runner failed: ' + p.stderr[-2000:])
@@ -165,10 +168,60 @@ def run(rep):
                         rep.violation({'kind': 'history', 'ops': sub[hi][:k + 1],
                                        'fails': 'class order %s differs at %r: %s vs %s' % (perm_cfgs[ci], cmd, a, b)})
                         return
+    # reactive armor hardener histories (those of C12: hardeners, ship replaced / removed and added while
+    # they run, modifiers of ship and hardener resonances coming and going) under the same delivery orders:
+    # the simulator is one more subscriber, its results must not depend on who is told first
+    import c12
+    nrah = 30 if rep.tier == 'quick' else 600
+    rah_hists = []
+    while len(rah_hists) < nrah:
+        h = c12.gen_history(rng, 'exact')
+        if len(rah_hists) < nrah // 2 and not any(o[0] == 'ship' for o in h['ops']):
+            continue
+        rah_hists.append(h)
+    rcfgs = cfgs + [dict(order_seed=0, salt=5, mode='class:' + ','.join(p))
+                    for p in (['ReactiveArmor', 'Calculation', 'Stat', 'Restriction'],
+                              ['Calculation', 'ReactiveArmor', 'Stat', 'Restriction'],
+                              ['Stat', 'Restriction', 'ReactiveArmor', 'Calculation'])]
+    outs = run_configs([], rcfgs, 0, rah_histories=rah_hists)
+    ref = outs[0]['rah']
+
+    def same_obs(a, b):
+        if a == b:
+            return True
+        if isinstance(a, list) and isinstance(b, list) and len(a) == len(b):
+            return all(same_obs(x, y) for x, y in zip(a, b))
+        if isinstance(a, float) and isinstance(b, float):
+            return abs(a - b) <= 1e-9 * max(1.0, abs(a), abs(b))
+        return False
+    for ci, o in enumerate(outs):
+        for hi, recs in enumerate(o['rah']):
+            total += 1
+            if not same_obs([r[0] for r in ref[hi]] if ref[hi] and ref[hi][0] != 'raise' else ref[hi],
+                            [r[0] for r in recs] if recs and recs[0] != 'raise' else recs):
+                k = next((k for k, (a, b) in enumerate(zip(ref[hi], recs)) if not same_obs(a[0], b[0])), 0) \
+                    if ref[hi] and recs and ref[hi][0] != 'raise' and recs[0] != 'raise' else 0
+                rep.violation({'kind': 'rah_history', 'history': rah_hists[hi], 'config': rcfgs[ci],
+                               'fails': 'reactive armor hardener history: schedule %s differs from the sorted '
+                                        'schedule at read %d: %s vs %s' % (
+                                            rcfgs[ci], k, json.dumps(recs[k] if k < len(recs) else recs)[:300],
+                                            json.dumps(ref[hi][k] if k < len(ref[hi]) else ref[hi])[:300])})
+                return
+    rep.cov['rah_histories_under_schedules'] = len(rah_hists)
     rep.cov['schedule_runs_compared'] = total
     rep.cov['schedules'] = {'delivery_orders': [c['mode'] for c in cfgs], 'class_orders': len(perm_cfgs),
                             'hash_seeds': 2 if rep.tier == 'quick' else 4}
 
 
 def replay(path):
+    r = json.load(open(path))
+    if r.get('kind') == 'rah_history':
+        cfgs = [dict(order_seed=0, salt=0, mode='sorted'), r['config']]
+        outs = run_configs([], cfgs, 0, rah_histories=[r['history']])
+        a, b = outs[0]['rah'][0], outs[1]['rah'][0]
+        same = json.dumps(a) == json.dumps(b)
+        print('sorted schedule :', json.dumps(a)[:600])
+        print('%s:' % r['config'], json.dumps(b)[:600])
+        print('oracle:', 'property holds on this input' if same else 'the two schedules disagree')
+        return 0 if same else 1
     return engcheck.replay(path, oracle)
